@@ -23,7 +23,14 @@ def run(rep):
             'restart delay + bound + 700 ms after the kill; distinct = distinct observable outcome per scenario')
 
     silent = [{**s, 'dev_window': (0, 1600)} for s in fam if 'silent' in s['name']]
-    late   = [{**s, 'dev_window': (2000, 2300)} for s in fam if s.get('late_d1')]
+    late   = []
+
+    for s in fam:
+        if s.get('late_d1'):
+            delays = s['faults']['restart_delays'][:1] if quick else s['faults']['restart_delays']      # quick: the shortest delay only
+
+            late.append({**s, 'faults': {**s['faults'], 'restart_delays': delays}, 'dev_window': (2000, 2350 + max(d or 0 for d in delays))})
+
     fam    = [s for s in fam if 'silent' not in s['name'] and not s.get('late_d1')]
 
     explore.explore(rep, 'kills-d0', fam, 0, bases, 'checks.oracles:oracle_c06', budget_s=900 if quick else 1700)
